@@ -277,6 +277,13 @@ def rule_provenance(ctx, rid):
         good = [t for t in q if dict(t[4]).get('k', t[3][1] if len(t[3]) > 1 else None) == S('K')
                 and dict(t[4]).get('distance_upper_bound') == S('distance_upper_bound')
                 and t[2][0] == 'call' and t[2][1].endswith('cKDTree')]
+        approx = [t for t in good if dict(t[4]).get('eps', C(0)) not in (C(0), C(0.0))
+                  or dict(t[4]).get('p', C(2)) not in (C(2), C(2.0))]
+        if approx:
+            ok3 = False
+            why3 = 'the neighbour search is not the exact Euclidean one: %s (with eps > 0 the tree may return a point ' \
+                   'that is not among the K nearest; p changes the metric)' % show(approx[0])[-90:]
+            continue
         if not good:
             ok3 = False
             why3 = 'a path builds the neighbour table without cKDTree(y).query(x, k=K, distance_upper_bound=...): %s' \
@@ -370,6 +377,15 @@ def _claimants(idx, col):
                 return ('bad', 'the closest occurrence is not searched among the distances of that candidate\'s own '
                         'occurrences in this column: %s' % show(arg)[:80])
         return ('unknown', 'cannot read the per-candidate selection %s' % show(elt)[:80])
+    # a boolean selection `occ[D == D.min()]` keeps every tie as well
+    def is_min(t_):
+        return (t_[0] == 'meth' and t_[1] in ('min', 'max')) or (
+            t_[0] == 'call' and t_[1] in ('numpy.min', 'numpy.amin', 'numpy.nanmin', 'builtins.min', 'numpy.max'))
+    eqm = [t for t in subterms(idx) if t[0] == 'sub' and t[2][0] == 'cmp' and t[2][1] in ('==', '<=', '>=')
+           and (is_min(t[2][2]) or is_min(t[2][3]))]
+    if eqm:
+        return ('bad', 'claimants are selected by comparing every distance with the smallest one (%s): every row that ties '
+                'for it claims the same candidate, so one row of y can be matched twice' % show(eqm[0][2])[:90])
     eqs = [t for t in subterms(idx) if t[0] == 'call' and t[1] == 'numpy.where' and t[2] and t[2][0][0] == 'cmp'
            and t[2][0][1] == '==']
     if eqs:
